@@ -231,6 +231,12 @@ func (k KeyEnvelope) Unwrap(kek []byte) (lorawan.AES128Key, error) {
 		return key, errors.Wrap(err, "new cipher error")
 	}
 
+	// a wrapped key is the 8 byte integrity check value followed by at least
+	// two 8 byte blocks (RFC 3394)
+	if len(k.AESKey) < 24 || len(k.AESKey)%8 != 0 {
+		return key, errors.New("invalid wrapped key length")
+	}
+
 	b, err := keywrap.Unwrap(block, k.AESKey[:])
 	if err != nil {
 		return key, errors.Wrap(err, "unwrap key errror")
